@@ -192,7 +192,8 @@ def run_doc(levels, titles, depth, custom, real=False):
     from docutils import nodes
     from harness import common_render as CR
 
-    text = "".join("%s %s\n\npara\n\n" % ("#" * l, t) for l, t in zip(levels, titles))
+    # (front matter and a MyST target line: the command must parse the file with the same MyST rules as the renderer)
+    text = "---\nauthor: jo bloggs\n---\n\n" + "".join("%s %s\n\npara\n\n" % ("#" * l, t) for l, t in zip(levels, titles)) + "(lbl)=\nlast para\n\n"
     exp = expected_slugs(levels, titles, depth)
     if custom is None:
         # every anchor is linked once: it must resolve to its own heading
